@@ -203,7 +203,9 @@ def corrmtx(x_input, m, method='autocorrelation'):
         for i in range(N-m, N):
             C[i] = Up[i-N+m]
     elif method == 'covariance':
-        return Tp
+        # floating point output as for the other methods (an integer
+        # matrix would wrap around in the products formed by the callers)
+        return numpy.array(Tp, dtype=complex if complex_type else float)
     elif method == 'modified':
         if complex_type == True:
             C = numpy.zeros((2*(N-m), m+1), dtype=complex)
